@@ -335,13 +335,26 @@ func genCase(t *rapid.T) Case {
 	var c Case
 	c.Res = uint16(8 * rapid.OneOf(rapid.SampledFrom([]int{3, 12, 60, 120, 1920}), rapid.IntRange(3, 1920)).Draw(t, "res/8"))
 	nb := rapid.OneOf(rapid.IntRange(1, 12), rapid.IntRange(1, 12), rapid.IntRange(1, 12), rapid.IntRange(1, 12), rapid.IntRange(100, 400)).Draw(t, "nBars")
+	// one song in 500 is longer than 2^32 ticks: thousands of long bars at the finest resolutions
+	veryLong := rapid.IntRange(0, 499).Draw(t, "longerThan2^32Ticks?") == 0
+	if veryLong {
+		c.Res = uint16(8 * rapid.SampledFrom([]int{4095, 4094, 4000}).Draw(t, "fineRes/8"))
+		nb = rapid.IntRange(5400, 7000).Draw(t, "nBarsVeryLong")
+	}
 	type sig struct{ n, d int }
 	favourites := []sig{{4, 4}, {3, 4}, {6, 8}, {9, 8}, {12, 8}, {7, 4}, {15, 16}, {5, 4}, {2, 2}, {24, 32}, {7, 1}, {8, 4}, {16, 16}}
 	num, den := 4, 4
 	var lens []int
 	for i := 0; i < nb; i++ {
 		var b BarCase
-		if i == 0 || rapid.IntRange(0, 2).Draw(t, "newSignature?") == 0 {
+		if veryLong {
+			// the signature changes every 1000 bars, so that the bar track has an event at least
+			// every 2^32 ticks (a delta is a uint32)
+			if i%1000 == 0 {
+				b.Num, b.Den = 7-(i/1000)%2, 1
+				num, den = b.Num, b.Den
+			}
+		} else if i == 0 || rapid.IntRange(0, 2).Draw(t, "newSignature?") == 0 {
 			var s sig
 			if rapid.Bool().Draw(t, "favourite") {
 				s = rapid.SampledFrom(favourites).Draw(t, "sig")
@@ -358,7 +371,7 @@ func genCase(t *rapid.T) Case {
 	}
 	// optionally an intermediate export followed by edits (new resolution, replaced signatures of
 	// bars that exist already); events are then placed using the FINAL bar lengths
-	if rapid.IntRange(0, 3).Draw(t, "exportInBetween?") == 0 {
+	if !veryLong && rapid.IntRange(0, 3).Draw(t, "exportInBetween?") == 0 {
 		c.ExportAfter = rapid.IntRange(1, nb).Draw(t, "exportAfter") // == nb: all bars are there, export, edit, export
 		if rapid.Bool().Draw(t, "newResolution?") {
 			c.NewRes = uint16(8 * rapid.OneOf(rapid.SampledFrom([]int{3, 12, 60, 120, 1920}), rapid.IntRange(3, 1920)).Draw(t, "newRes/8"))
@@ -380,9 +393,23 @@ func genCase(t *rapid.T) Case {
 	}
 	done := 0
 	for i := range c.Bars {
+		if veryLong && i > 2 && i < len(c.Bars)-4 && i%1000 != 0 {
+			done += lens[i]
+			continue // events at the start, every 1000 bars, and in the last bars only
+		}
+		if veryLong {
+			// every used track gets an event here (gaps within a track stay below 2^32 ticks)
+			for tr := 0; tr < 3; tr++ {
+				c.Bars[i].Events = append(c.Bars[i].Events, EvCase{Track: tr, Pos: rapid.IntRange(0, lens[i]-1).Draw(t, "forcedPos"),
+					Msg: ev.Hex(midi.ControlChange(byte(tr), byte(i%128), byte(tr+1)))})
+			}
+		}
 		ne := rapid.IntRange(0, 5).Draw(t, "nEvents")
 		for j := 0; j < ne; j++ {
 			e := EvCase{Track: rapid.IntRange(0, 7).Draw(t, "track")}
+			if veryLong {
+				e.Track %= 3
+			}
 			e.Pos = rapid.IntRange(0, lens[i]-1).Draw(t, "pos")
 			ch := byte(rapid.IntRange(0, 15).Draw(t, "ch"))
 			switch rapid.IntRange(0, 8).Draw(t, "msg") {
@@ -411,7 +438,7 @@ func genCase(t *rapid.T) Case {
 }
 
 var songs = ev.NewCheck("C20", "songs",
-	"rapid: songs of 1..12 bars (one song in five: 100..400 bars); time signatures numerator 1..24 over denominators 1,2,4,8,16,32 with bars of at most 255 thirty-seconds (biased to 6/8, 9/8, 12/8, 7/4, 15/16), bars inheriting the previous signature; resolutions divisible by 8 (24..15360); up to 8 tracks; per bar 0..5 events (NoteOn velocity > 0 with a duration ending within the song, control/program change, pitch bend, channel and key pressure, sysex) at any in-bar position; in one case of four the song is exported once in the middle of being built, then possibly edited (new resolution, time signatures of existing bars replaced through Bars()), the remaining bars are added and it is exported again (export - edit - export); oracle = independent bar/grid model: bar start = sum of previous num*32/den * res/8, event at start+pos*t32, NoteOff at start+(pos+dur)*t32, time-signature event at every change relative to 4/4, every track ends at the song end, no wrapped delta; ToSMF0 and the union of ToSMF1 must equal the model (hence each other) as multisets of (tick, bytes), ToSMF1 assigns events to tracks by TrackNo; non-trivial = >= 2 bars, a bar with numerator >= 8 and an event in or after it in a later bar; distinct by case hash",
+	"rapid: songs of 1..12 bars (one song in five: 100..400 bars; one in 500: 5400..7000 bars of 7/1 and 6/1 at resolution 32000..32760, i.e. longer than 2^32 ticks, with a signature change and events on three tracks every 1000 bars so that no delta exceeds a uint32); time signatures numerator 1..24 over denominators 1,2,4,8,16,32 with bars of at most 255 thirty-seconds (biased to 6/8, 9/8, 12/8, 7/4, 15/16), bars inheriting the previous signature; resolutions divisible by 8 (24..15360); up to 8 tracks; per bar 0..5 events (NoteOn velocity > 0 with a duration ending within the song, control/program change, pitch bend, channel and key pressure, sysex) at any in-bar position; in one case of four the song is exported once in the middle of being built, then possibly edited (new resolution, time signatures of existing bars replaced through Bars()), the remaining bars are added and it is exported again (export - edit - export); oracle = independent bar/grid model: bar start = sum of previous num*32/den * res/8, event at start+pos*t32, NoteOff at start+(pos+dur)*t32, time-signature event at every change relative to 4/4, every track ends at the song end, no wrapped delta; ToSMF0 and the union of ToSMF1 must equal the model (hence each other) as multisets of (tick, bytes), ToSMF1 assigns events to tracks by TrackNo; non-trivial = >= 2 bars, a bar with numerator >= 8 and an event in or after it in a later bar; distinct by case hash",
 	genCase, run)
 
 func TestPropSongs(t *testing.T) { songs.Rapid(t, 3000, 60000) }
